@@ -8,5 +8,7 @@ mkdir -p .cache bin evidence replays
 python3 tools/sig_check.py --regen
 ( cd coq && coq_makefile -f _CoqProject -o Makefile >/dev/null && timeout 3000 make -j16 )
 ( cd ocaml && ocamlfind ocamlopt -O2 -w -a -package zarith -linkpkg model.mli model.ml driver.ml -o ../bin/modelrun )
-( cd harness && timeout 1500 cargo build --offline && timeout 1500 cargo build --offline --release )
+# debug and release side by side, each in its own target directory (the ones tools/check.py and tools/memsize_check.py use)
+( cd harness && ( CARGO_TARGET_DIR="$PWD/../.cache/target" timeout 1500 cargo build --offline & CARGO_TARGET_DIR="$PWD/../.cache/target-rel" timeout 1500 cargo build --offline --release & wait ) )
+[ -x .cache/target/debug/cache_trace ] && [ -x .cache/target-rel/release/cache_trace ]
 echo setup-ok
